@@ -66,6 +66,11 @@ func seqProfile(prop string, cas int, tier string) Profile {
 			p.NearFull = true
 			p.DiskBlocks = []uint64{1650, 2300}[(cas/4)%2]
 		}
+		if cas%8 == 1 {
+			p.ManyObjs = 45 // multi-block directories, one of them with long names only
+			p.HotSet = 4
+			p.RestartEvery = 15
+		}
 	case "C05":
 		p.NOps = 180
 		p.DiskBlocks = 9000
